@@ -260,16 +260,22 @@ func BlockOnInteractiveRequests(caller ...string) {
 	}
 }
 
-// SetReadOnly can put the server in a read-only mode.
+// SetReadOnly can put the server in a read-only mode.  Leaving read-only mode returns to
+// normal operation (committed versions stay immutable), not to full-write mode.
 func SetReadOnly(on bool) {
 	readonly = on
-	fullwrite = !on
+	if on {
+		fullwrite = false
+	}
 }
 
-// SetFullWrite allows mutations on any version.
+// SetFullWrite allows mutations on any version.  Leaving full-write mode returns to normal
+// operation, not to read-only mode.
 func SetFullWrite(on bool) {
 	fullwrite = on
-	readonly = !on
+	if on {
+		readonly = false
+	}
 }
 
 // SetMonitor can put server in monitor mode (writes load stats to debug if activity).
